@@ -34,6 +34,21 @@ def run(ctx):
         ctx.guard(revcomp_symmetry, ctx, kc, "C12.revcomp-symmetry.inside-cut")
     # every concrete generic (non-literal, non-part) class of the kits as well
     from ..rules_pattern import has_generic_structure, CONFIRMED_NEXT_LEVEL_VECTORS
+    import ast as _ast
+    from ..loader import ClassInfo as _ClassInfo
+
+    # classes the bundled registries hand their plasmids to (referenced by name in a module of moclo.registry)
+    registry_typed = set()
+    for mn, m in ctx.program.modules.items():
+        if mn.startswith("moclo.registry."):
+            for n in _ast.walk(m.tree):
+                if isinstance(n, (_ast.Attribute, _ast.Name)) and isinstance(getattr(n, "ctx", None), _ast.Load):
+                    try:
+                        v = ctx.program.resolve_expr(m, n)
+                    except Exception:
+                        continue
+                    if isinstance(v, _ClassInfo):
+                        registry_typed.add(v)
     for kc in ctx.inventory:
         if kc.concrete and not kc.is_part:
             generic = has_generic_structure(ctx, kc)
@@ -41,9 +56,10 @@ def run(ctx):
                 generic = kc.structure_owner is not kc.ci
             if generic:
                 ctx.guard(revcomp_symmetry, ctx, kc, "C12.revcomp-symmetry.kit")
-            elif kc.ci.name in CONFIRMED_NEXT_LEVEL_VECTORS:
+            elif kc.ci.name in CONFIRMED_NEXT_LEVEL_VECTORS and kc.ci in registry_typed:
                 # the vectors that embed the next level's sites are strand-symmetric too (confirmed by hand on the pinned
-                # tree): the plasmids of the bundled registries typed by them are in the quantifier
+                # tree); those that type plasmids of the bundled registries are in the quantifier ("the generic-typed
+                # plasmids of the bundled registries"), the others are not generic classes and are left alone
                 ctx.guard(revcomp_symmetry, ctx, kc, "C12.revcomp-symmetry.kit-nested")
     from ..kernels import run_kernels
     run_kernels(ctx, ["K10", "K7", "K8", "K14", "K15", "K1"], "C12")
